@@ -80,6 +80,7 @@ type Solver struct {
 	marker     int
 	Log        io.Writer
 	dead       bool
+	lemma      map[int]Result // fp-sub lemma per width
 }
 
 func NewSolver(timeoutMs int) (*Solver, error) {
@@ -586,4 +587,88 @@ func valueText(e *sexpr) (string, bool) {
 		return r.RatString(), true
 	}
 	return "", false
+}
+
+// FPSubLemma discharges, once per solver process and width, the lemma
+//   finite a, b  =>  ((a - b) == 0 <=> a == b) and ((a - b) < 0 <=> a < b) and ((a - b) > 0 <=> a > b)
+// (round-to-nearest-even subtraction). It is used as a rewrite only when unsat was returned.
+func (s *Solver) FPSubLemma() bool {
+	if s.lemma == nil {
+		s.lemma = map[int]Result{}
+	}
+	ok := true
+	for _, w := range [][2]int{{8, 24}, {11, 53}} {
+		key := w[0] + w[1]
+		if _, done := s.lemma[key]; !done {
+			fp := fmt.Sprintf("(_ FloatingPoint %d %d)", w[0], w[1])
+			z := fmt.Sprintf("(_ +zero %d %d)", w[0], w[1])
+			q := []string{
+				"(declare-const la " + fp + ")", "(declare-const lb " + fp + ")",
+				"(assert (not (fp.isNaN la)))", "(assert (not (fp.isInfinite la)))",
+				"(assert (not (fp.isNaN lb)))", "(assert (not (fp.isInfinite lb)))",
+				"(define-fun ld () " + fp + " (fp.sub RNE la lb))",
+				"(assert (or (not (= (fp.eq ld " + z + ") (fp.eq la lb))) (not (= (fp.lt ld " + z + ") (fp.lt la lb))) (not (= (fp.gt ld " + z + ") (fp.gt la lb)))))",
+			}
+			s.lemma[key] = s.oneShot(q)
+		}
+		if s.lemma[key] != Unsat {
+			ok = false
+		}
+	}
+	return ok
+}
+
+// oneShot decides a self-contained query in fresh solver processes (cvc5, then z3);
+// incremental z3 is much slower on floating-point lemmas.
+func (s *Solver) oneShot(lines []string) Result {
+	t0 := time.Now()
+	defer func() { s.Stats.Time += time.Since(t0) }()
+	s.Stats.Queries++
+	body := strings.Join(lines, "\n") + "\n(check-sat)\n"
+	run := func(name string, args []string, prelude string) Result {
+		cmd := exec.Command(name, args...)
+		cmd.Stdin = strings.NewReader(prelude + body)
+		var out bytes.Buffer
+		cmd.Stdout, cmd.Stderr = &out, &out
+		if err := cmd.Start(); err != nil {
+			return Unknown
+		}
+		done := make(chan error, 1)
+		go func() { done <- cmd.Wait() }()
+		select {
+		case <-done:
+		case <-time.After(120 * time.Second):
+			cmd.Process.Kill()
+			<-done
+			return Unknown
+		}
+		if strings.Contains(out.String(), "(error") {
+			return Unknown
+		}
+		for _, l := range strings.Split(out.String(), "\n") {
+			switch strings.TrimSpace(l) {
+			case "unsat":
+				return Unsat
+			case "sat":
+				return Sat
+			}
+		}
+		return Unknown
+	}
+	r := run("cvc5", []string{"--lang=smt2", "--tlimit=100000"}, "(set-logic ALL)\n")
+	who := "cvc5"
+	if r == Unknown {
+		r = run("z3", []string{"-in", "-smt2", "-T:100"}, "")
+		who = "z3"
+	}
+	switch r {
+	case Sat:
+		s.Stats.Sat++
+	case Unsat:
+		s.Stats.Unsat++
+	default:
+		s.Stats.Unknown++
+	}
+	s.Stats.BySolver[who+"(one-shot)"]++
+	return r
 }
